@@ -149,6 +149,15 @@ namespace GeographicLib {
     real _c[1];
   };
 
+  // SW1: arguments swapped with respect to the parameter names; OV1: 32-bit product widened too late
+  class FixtureLint {
+  public:
+    static int Cell(int n, int m) { return n * 100 + m; }
+    static int Use(int n, int m) { return Cell(m, n); }
+    static bool LengthOk(int width, int height, unsigned long long filelen)
+    { return 4u * unsigned(width) * unsigned(height) == filelen; }
+  };
+
   // K7: the eastward wrap test is off by one (ix == _width is not wrapped) before the file position is taken
   class FixtureRaster {
   public:
